@@ -39,6 +39,12 @@ CLAIMED = {
  "C07": dict(level="exploration", oracle="independent RFC decoder on every frame written + per-call intent checks",
    text="Every frame any library path writes to the simulated connection, in every scenario family of every property (host histories with real purge probes, DHCP histories incl. attack bursts and forced declines, ARP/NDP spoof loops, pings) plus a dedicated family that calls every exported send function with generated arguments under several NIC configurations, is decoded by a decoder written from the RFCs that shares no code with the library: complete and length-consistent at every layer, IPv4/ICMP/ICMPv6 checksums, hop limit 255 for link-local NDP, 33:33 mapping for IPv6 multicast, Ethernet source = interface MAC; the dedicated family also checks the fields against the caller's arguments. Pool buffers are poisoned on Get, so a field the encoder forgot to write shows up as garbage.",
    ref="DESIGN.md section 4 (C07)"),
+ "C09": dict(level="exploration", oracle="panic trap, exact lock wait-for deadlock detector, race detector under controlled schedules, table invariants at settle points, goroutine-leak check, porcupine register linearizability",
+   text="Concurrent simulation of the supported pattern with all four handlers: one packet loop, the real purge and NIC tickers, spoof loops, 2-6 API tasks issuing the property's query/control calls, traffic nodes (IPv4/IPv6/ARP/RA/DHCP/DNS/mDNS), wire faults and a closer that shuts everything down in the middle of the traffic. A seeded tape decides every interleaving, select order, map order, timer tie and stall. Oracles: no task panics; no lock cycle (exact for the modelled mutexes/rw-locks) and no task left on a lock; C05 invariants at quiescent points; 10 virtual minutes after Close no library goroutine is alive; the control-plane registers are linearizable (porcupine); and every third run executes under the Go race detector, whose happens-before view contains only the program's own synchronisation because the simulator's hand-off is invisible to it - each distinct pair of racing library functions is one finding.",
+   ref="DESIGN.md section 4 (C09), 2.5"),
+ "C10": dict(level="exploration", oracle="differential transcript equality: shared scribbled receive buffer vs private immutable buffers, same scenario and same tape",
+   text="Every scenario of the host, DHCP (with lease file) and naming (DNS, mDNS, LLMNR, NBNS, SSDP, RA, DHCP names) families is executed twice with the same operation list and the same choice tape, in two processes: once with one receive buffer that is overwritten with garbage after every packet, once with a fresh buffer per packet. Notifications, every emitted frame and the final retained state (hosts and MAC entries with names, offers, routers, DNS table, lease file) must be identical. Exact repeatability of the simulation is what makes the comparison meaningful.",
+   ref="DESIGN.md section 4 (C10)"),
 }
 
 NA = {
